@@ -46,7 +46,7 @@ Definition k_probability : str := Eval vm_compute in s_of "probability".
 Definition k_label : str := Eval vm_compute in s_of "label".
 Definition k_dist : str := Eval vm_compute in s_of "probability_distribution".
 End SC.
-Import SC.
+Export SC.
 
 (* a Python float (or an int seen through ==): exact rational, or a non-finite value *)
 Inductive num := NFin (n : Z) (d : positive) | NNaN | NPInf | NNInf.
@@ -475,6 +475,67 @@ Proof.
   intros H F. unfold header_fields. pose proof (dict_pop_spec k_probability h) as P.
   destruct (dict_pop k_probability h) as [[pv' h1]|]; [|destruct P; congruence]. destruct P as (L & _).
   assert (pv' = pv) by congruence. subst. now rewrite F.
+Qed.
+
+(* header_fields in terms of lookups only: the grouping into lines is gone, the order is irrelevant *)
+Definition header_fields_l (h : dict) : res (num * jvalue * jvalue * dict) :=
+  match lookup k_probability h with
+  | None => Err ValueError
+  | Some pv =>
+      match float_of pv with
+      | Err e => Err e
+      | Ood => Ood
+      | Ok p =>
+          match lookup k_label h with
+          | None => Err ValueError
+          | Some lv => Ok (p, lv, match lookup k_dist h with Some d => d | None => JNull end,
+                           drop_key k_dist (drop_key k_label (drop_key k_probability h)))
+          end
+      end
+  end.
+Lemma header_fields_lookup h : NoDup (keys h) -> header_fields h = header_fields_l h.
+Proof.
+  intros ND. unfold header_fields, header_fields_l.
+  pose proof (dict_pop_spec k_probability h) as P1. destruct (dict_pop k_probability h) as [[pv h1]|].
+  2:{ destruct P1 as (-> & _). reflexivity. }
+  destruct P1 as (L1 & O1 & N1). destruct (N1 ND) as (E1 & I1 & ND1). rewrite L1.
+  destruct (float_of pv) as [p| |]; try reflexivity.
+  pose proof (dict_pop_spec k_label h1) as P2. rewrite <- (O1 k_label) by (vm_compute; discriminate).
+  destruct (dict_pop k_label h1) as [[lv h2]|].
+  2:{ destruct P2 as (-> & _). reflexivity. }
+  destruct P2 as (L2 & O2 & N2). destruct (N2 ND1) as (E2 & I2 & ND2). rewrite L2.
+  pose proof (dict_pop_spec k_dist h2) as P3.
+  rewrite <- (O1 k_dist), <- (O2 k_dist) by (vm_compute; discriminate).
+  destruct (dict_pop k_dist h2) as [[dv h3]|].
+  - destruct P3 as (L3 & O3 & N3). destruct (N3 ND2) as (E3 & _). rewrite L3. now rewrite E3, E2, E1.
+  - destruct P3 as (-> & D3). rewrite <- E1, <- E2. now rewrite D3.
+Qed.
+Lemma drop_key_perm k d d' : Permutation d d' -> Permutation (drop_key k d) (drop_key k d').
+Proof.
+  unfold drop_key. induction 1 as [| a l l' P IH | a b l | l l' l'' P1 IH1 P2 IH2]; cbn.
+  - constructor.
+  - destruct (negb (str_eqb k (fst a))); auto.
+  - destruct (negb (str_eqb k (fst a))), (negb (str_eqb k (fst b))); auto. apply perm_swap.
+  - eapply perm_trans; eauto.
+Qed.
+Lemma keys_perm d d' : Permutation d d' -> Permutation (keys d) (keys d').
+Proof. apply Permutation_map. Qed.
+Lemma header_fields_perm h h' p lv dv ex : Permutation h h' -> NoDup (keys h) -> header_fields h = Ok (p, lv, dv, ex) ->
+  exists ex', header_fields h' = Ok (p, lv, dv, ex') /\ Permutation ex ex'.
+Proof.
+  intros P ND. assert (ND' : NoDup (keys h')) by (eapply Permutation_NoDup; [apply keys_perm, P|auto]).
+  rewrite (header_fields_lookup h ND), (header_fields_lookup h' ND'). unfold header_fields_l.
+  rewrite <- !(lookup_perm _ h h' P ND).
+  destruct (lookup k_probability h) as [pv|]; [|discriminate]. destruct (float_of pv) as [q| |]; try discriminate.
+  destruct (lookup k_label h) as [l|]; [|discriminate]. intros H. injection H as -> -> <- <-.
+  eexists. split; [reflexivity|]. now repeat apply drop_key_perm.
+Qed.
+Lemma install_perm clash ex ex' : Permutation ex ex' -> NoDup (keys ex) -> install clash ex = Ok tt -> install clash ex' = Ok tt.
+Proof.
+  intros P ND H. apply install_ok.
+  - eapply Permutation_NoDup; [apply keys_perm, P|auto].
+  - apply install_ok_inv in H. rewrite Forall_forall in *. intros k Hk. apply H.
+    eapply Permutation_in; [apply Permutation_sym, keys_perm, P|auto].
 Qed.
 
 (* ------------------------------------------------------------------------------------------ *)
@@ -957,10 +1018,16 @@ Lemma spec_gens clash hp lv dv ex n p : p_matches p hp = true -> forall i es, Fo
 Proof.
   intros Hp. induction i as [|i IH]; intros es F; [reflexivity|]. cbn [repeat spec_calls]. rewrite Hp. cbn [negb].
   destruct es as [|e es].
-  - cbn [firstn map app length]. rewrite IH by constructor. cbn. now rewrite Nat.sub_0_r.
+  - rewrite IH by constructor. rewrite firstn_nil. cbn [firstn map app length]. rewrite !Nat.sub_0_r. reflexivity.
   - inversion F as [|? ? He F']; subst. rewrite He, Nat.eqb_refl. cbn [firstn map app length]. rewrite IH by auto. reflexivity.
 Qed.
 
+Lemma in_skipn {A} (x : A) k : forall l, In x (skipn k l) -> In x l.
+Proof. induction k as [|k IH]; intros [|a l] H; cbn in *; auto. Qed.
+Lemma nth_skipn' {A} (d : A) s : forall l i, nth i (skipn s l) d = nth (s + i) l d.
+Proof. induction s as [|s IH]; intros [|a l] i; cbn; auto. now destruct i. Qed.
+Lemma nth_firstn_lt {A} (d : A) k : forall l i, i < k -> nth i (firstn k l) d = nth i l d.
+Proof. induction k as [|k IH]; intros [|a l] [|i] H; cbn; auto; try lia. apply IH. lia. Qed.
 Theorem replay f hd es clash s p lv dv ex n pa : wf_file f hd es -> header_fields hd = Ok (p, lv, dv, ex) ->
   install clash ex = Ok tt -> s <= length es -> Forall (fun e => length e = 2 * n) es -> p_matches pa p = true ->
   exists st, init (Some f) (StInt (Z.of_nat s)) clash = Ok st /\
@@ -969,7 +1036,7 @@ Proof.
   intros W HF HI Hs F Hp. destruct (replay_calls f hd es clash s p lv dv ex W HF HI Hs) as (st & E & _ & _ & _ & _ & HC).
   exists st. split; auto. intros i. unfold gens. rewrite HC, spec_gens; auto.
   - now rewrite skipn_length.
-  - rewrite Forall_forall in *. intros x Hx. apply F. eapply In_skipn; eauto.
+  - rewrite Forall_forall in *. intros x Hx. apply F. eapply in_skipn; eauto.
 Qed.
 (* the i-th generate returns e_{s+i} *)
 Corollary replay_nth f hd es clash s p lv dv ex n pa i : wf_file f hd es -> header_fields hd = Ok (p, lv, dv, ex) ->
@@ -981,8 +1048,7 @@ Proof.
   exists st. split; auto. rewrite G. replace (S i - (length es - s)) with 0 by lia. cbn [repeat]. rewrite app_nil_r.
   assert (Hl : i < length (skipn s es)) by (rewrite skipn_length; lia).
   rewrite (nth_indep _ OOod (OBits [])) by (rewrite map_length, firstn_length; lia).
-  rewrite map_nth. f_equal. rewrite <- (firstn_skipn (S i) (skipn s es)) at 2.
-  rewrite <- (nth_skipn s es (i) []) . rewrite app_nth1 by (rewrite firstn_length; lia). reflexivity.
+  rewrite map_nth. f_equal. rewrite nth_firstn_lt by lia. apply nth_skipn'.
 Qed.
 
 Theorem eof_calls f hd es clash s p lv dv ex n pa k : wf_file f hd es -> header_fields hd = Ok (p, lv, dv, ex) ->
@@ -1047,9 +1113,50 @@ Proof.
   - destruct (skip_bodies (Z.to_nat s) _ _ B1 ltac:(lia)) as (r & -> & Hr).
     destruct (skip_bodies (Z.to_nat s) _ _ B2 ltac:(lia)) as (r' & -> & Hr').
     destruct (install clash ex) as [u|e|]; try reflexivity. cbn [extras]. f_equal.
-    rewrite (calls_s_spec clash cs _ _ _ Hr (SK _ _ _ HD)), (calls_s_spec clash cs _ _ _ Hr' (SK _ _ _ HD')). reflexivity.
+    rewrite (calls_s_spec clash cs (MkState r p lv dv ex) _ _ Hr (SK _ _ _ HD)), (calls_s_spec clash cs (MkState r' p lv dv ex) _ _ Hr' (SK _ _ _ HD')). reflexivity.
   - destruct (skip_bodies_eof (Z.to_nat s) _ _ B1 ltac:(lia)) as (r & ->).
     destruct (skip_bodies_eof (Z.to_nat s) _ _ B2 ltac:(lia)) as (r' & ->). reflexivity.
+Qed.
+
+Lemma init_ok_inv f hd es clash s st : wf_file f hd es -> init (Some f) (StInt s) clash = Ok st ->
+  header_fields hd = Ok (prob st, label st, dist st, extras st) /\ install clash (extras st) = Ok tt /\ (0 <= s)%Z
+  /\ Z.to_nat s <= length es.
+Proof.
+  intros W E. assert (Es : init_s (Some f) (StInt s) clash = Ok (view st)) by (rewrite init_sim, E; reflexivity).
+  destruct (headers_wf _ _ _ W) as (v0 & bs & vs & EH & HB & HD).
+  unfold init_s, init_g in Es. destruct (Z.ltb_spec s 0); [discriminate|]. rewrite EH in Es.
+  destruct (header_fields hd) as [[[[p lv] dv] ex]|e|] eqn:HF; try discriminate.
+  assert (HB' : bodies (Body v0 :: bs) = Some (v0 :: vs)) by (cbn; now rewrite HB).
+  assert (Hl : length (v0 :: vs) = length es) by (eapply Forall2_length; eauto).
+  destruct (Nat.le_gt_cases (Z.to_nat s) (length es)) as [Hs|Hs].
+  2:{ destruct (skip_bodies_eof (Z.to_nat s) _ _ HB' ltac:(lia)) as (r & Er). rewrite Er in Es. discriminate. }
+  destruct (skip (list line) read (Z.to_nat s) (Body v0 :: bs)) as [[u|e|] r2]; try discriminate.
+  destruct (install clash ex) as [[]|e|] eqn:HI; try discriminate. injection Es as _ <- <- <- <-. auto.
+Qed.
+Lemma spec_calls_ext clash hp lv dv ex ex' : (forall k, lookup k ex = lookup k ex') ->
+  forall cs es, spec_calls clash hp lv dv ex es cs = spec_calls clash hp lv dv ex' es cs.
+Proof.
+  intros X. induction cs as [|c cs IH]; intros es; [reflexivity|].
+  destruct c as [n p|p| |k]; cbn [spec_calls]; try (f_equal; apply IH).
+  - destruct (negb (p_matches p hp)); [f_equal; apply IH|]. destruct es; f_equal; apply IH.
+  - rewrite IH. unfold attr_answer. now rewrite X.
+Qed.
+(* the order of the header keys does not matter either *)
+Theorem order_independent f f' hd hd' es clash s st : wf_file f hd es -> wf_file f' hd' es -> Permutation hd hd' ->
+  init (Some f) (StInt s) clash = Ok st ->
+  exists st', init (Some f') (StInt s) clash = Ok st' /\ prob st' = prob st /\ label st' = label st /\ dist st' = dist st
+              /\ Permutation (extras st) (extras st') /\ forall cs, calls clash st' cs = calls clash st cs.
+Proof.
+  intros W W' P E. destruct (init_ok_inv _ _ _ _ _ _ W E) as (HF & HI & Hs0 & Hs).
+  pose proof (wf_nodup _ _ _ W) as ND.
+  destruct (header_fields_perm _ _ _ _ _ _ P ND HF) as (ex' & HF' & Pex).
+  destruct (header_fields_spec _ _ _ _ _ ND HF) as (_ & _ & _ & _ & _ & NDex & _).
+  pose proof (install_perm _ _ _ Pex NDex HI) as HI'.
+  assert (Es : s = Z.of_nat (Z.to_nat s)) by lia. set (k := Z.to_nat s) in *. clearbody k. subst s.
+  destruct (replay_calls f hd es clash k _ _ _ _ W HF HI Hs) as (st0 & E0 & _ & _ & _ & _ & C0).
+  destruct (replay_calls f' hd' es clash k _ _ _ _ W' HF' HI' Hs) as (st' & E' & P1 & P2 & P3 & P4 & C').
+  rewrite E in E0. injection E0 as <-. exists st'. repeat split; auto; try congruence.
+  intros cs. rewrite C', C0. symmetry. apply spec_calls_ext. intros k'. apply lookup_perm; auto.
 Qed.
 
 (* refusals *)
@@ -1117,6 +1224,14 @@ Proof.
   intros Hz Hf. destruct file as [f|]; [|contradiction]. unfold init, init_g. destruct (Z.ltb_spec z 0); [reflexivity|lia].
 Qed.
 
+(* The documentation promises "a valid Python attribute name, not starting with an underscore"; the regex
+   as written (and as modelled) admits exactly one more shape: such a name followed by one newline. *)
+Definition attr_names_statement : Prop := forall k, attr_re k = true -> is_ident k = true.
+Theorem attr_names_partial k : attr_re k = true -> is_ident k = true \/ exists k', k = k' ++ [10%N] /\ is_ident k' = true.
+Proof. apply attr_re_ident. Qed.
+Theorem attr_names_counterexample : ~ attr_names_statement.
+Proof. intros H. specialize (H [97%N; 10%N] eq_refl). discriminate. Qed.
+
 (* ------------------------------------------------------------------------------------------ *)
 (** * Example files (used by Props/C18.v) *)
 
@@ -1142,5 +1257,49 @@ Definition ex_file2 : list line :=
 Definition ex_p : parg := PNum (NFin 4 10).
 Definition ex_calls : list call :=
   [CLabel; CAttr (sv "bias"); CDist ex_p; CGen 5 ex_p; CGen 5 (PNum (NFin 1 2)); CGen 4 ex_p; CGen 5 ex_p; CGen 5 ex_p; CGen 5 ex_p].
+Definition ex_errors : list bsf := [e0; e1; e2; e3].
+Lemma NoDup_keys_dec (l : list str) : (fix nd (l : list str) := match l with [] => true | a :: r => negb (mem a r) && nd r end) l = true -> NoDup l.
+Proof.
+  induction l as [|a l IH]; intros H; [constructor|]. apply andb_true_iff in H. destruct H as [H1 H2].
+  constructor; auto. apply negb_true_iff in H1. now apply mem_nIn.
+Qed.
+Lemma ex_wf : wf_file ex_file ex_hdr ex_errors.
+Proof.
+  exists (firstn 9 ex_file), (packed_value e0), (skipn 10 ex_file), [packed_value e1; packed_value e2; packed_value e3].
+  split; [reflexivity|]. split; [reflexivity|]. split; [reflexivity|]. split; [apply NoDup_keys_dec; reflexivity|].
+  split; [reflexivity|]. repeat constructor; apply unpack_packed.
+Qed.
+Lemma ex_wf2 : wf_file ex_file2 ex_hdr ex_errors.
+Proof.
+  exists [Hdr ex_hdr], (packed_value e0), (skipn 2 ex_file2), [packed_value e1; packed_value e2; packed_value e3].
+  split; [reflexivity|]. split; [reflexivity|]. split; [reflexivity|]. split; [apply NoDup_keys_dec; reflexivity|].
+  split; [reflexivity|]. repeat constructor; apply unpack_packed.
+Qed.
+(* start 1: label, extra, distribution, e1, wrong p (cursor stays), wrong n (e2 consumed), e3, EOF, EOF *)
+Definition ex_trace : res (list str) * list outcome :=
+  (Ok [sv "bias"],
+   [OLabel (JStr (sv "Biased (bias=10)")); OAttr (JInt 10);
+    OTuple [JFloat (NFin 3 5); JFloat (NFin 1 10); JFloat (NFin 1 5); JFloat (NFin 1 10)];
+    OBits e1; OErr ValueError; OErr ValueError; OBits e3; OErr EOFError; OErr EOFError]).
+Lemma ex_scenario : scenario (Some ex_file) (StInt 1) ex_clash ex_calls = ex_trace
+  /\ scenario (Some ex_file2) (StInt 1) ex_clash ex_calls = ex_trace.
+Proof. split; vm_compute; reflexivity. Qed.
+(* malformed variants of the example *)
+Lemma ex_malformed :
+  fst (scenario (Some [Hdr [(sv "label", JStr (sv "L"))]; Body (packed_value e0)]) (StInt 0) ex_clash []) = Err ValueError
+  /\ fst (scenario (Some [Hdr [(sv "probability", JInt 1)]; Body (packed_value e0)]) (StInt 0) ex_clash []) = Err ValueError
+  /\ fst (scenario (Some [Hdr ex_hdr; Hdr [(sv "bias", JInt 3)]; Body (packed_value e0)]) (StInt 0) ex_clash []) = Err ValueError
+  /\ fst (scenario (Some [Hdr ex_hdr; Hdr [(sv "_x", JInt 3)]; Body (packed_value e0)]) (StInt 0) ex_clash []) = Err ValueError
+  /\ fst (scenario (Some [Hdr ex_hdr; Hdr [(sv "generate", JInt 3)]; Body (packed_value e0)]) (StInt 0) ex_clash []) = Err ValueError
+  /\ fst (scenario (Some [Hdr ex_hdr; BadJson; Body (packed_value e0)]) (StInt 0) ex_clash []) = Err JSONDecodeError
+  /\ fst (scenario (Some [Hdr ex_hdr]) (StInt 0) ex_clash []) = Err EOFError
+  /\ fst (scenario (Some ex_file) (StInt 5) ex_clash []) = Err EOFError
+  /\ fst (scenario (Some ex_file) (StInt (-1)) ex_clash []) = Err ValueError
+  /\ fst (scenario (Some ex_file) StBad ex_clash []) = Err TypeError
+  /\ snd (scenario (Some [Hdr ex_hdr; Body (packed_value e0); Hdr [(sv "x", JInt 1)]; BadJson; Body (JInt 5);
+                          Body (JList [JStr (sv "f38"); JInt 10]); Body (JList [JStr (sv "f380")]); Body (packed_value e1)])
+                   (StInt 1) ex_clash (repeat (CGen 5 ex_p) 7))
+     = [OErr ValueError; OErr JSONDecodeError; OErr TypeError; OErr ValueError; OErr ValueError; OBits e1; OErr EOFError].
+Proof. vm_compute. repeat split; reflexivity. Qed.
 End Ex.
-Import Ex.
+Export Ex.
